@@ -16,12 +16,12 @@ KANI_FOR = {
 # property -> bounded native stand-in (never counted as proved): the BTOR2 line parser / writer, which the weaver cannot extract
 FMT_SUITES = ['fmt:' + f for f in ['btor2', 'cnf', 'cnf8', 'wcnf', 'gcnf', 'satlog', 'satlog_ign', 'aag', 'aig', 'aag_stream', 'aig_stream']]
 STREAMING = ['fmt:btor2', 'fmt:cnf', 'fmt:cnf8', 'fmt:wcnf', 'fmt:gcnf', 'fmt:aag_stream', 'fmt:aig_stream']
-DIMACS = ['dimacs:cnf', 'dimacs:wcnf', 'dimacs:gcnf']
+DIMACS = ['dimacs:cnf', 'dimacs:wcnf', 'dimacs:gcnf', 'dimacs:wcnf16']
 AIGER = ['aiger:aag', 'aiger:aig']
 # property -> bounded native stand-in suites (standin/src/*.rs); bounded, never counted as proved
 STANDIN_FOR = {
     'C01': FMT_SUITES + ['ctor'], 'C02': ['reader'], 'C03': [s for s in FMT_SUITES if 'satlog' not in s and 'stream' not in s] + AIGER + DIMACS, 'C04': FMT_SUITES, 'C05': FMT_SUITES + ['renumber'],
-    'C06': DIMACS + AIGER + ['dimacs:satlog'], 'C07': DIMACS + ['dimacs:satlog'], 'C08': FMT_SUITES + DIMACS + AIGER, 'C09': STREAMING + ['reader', 'ctor'], 'C10': ['reader', 'mem'], 'C11': ['writer'],
+    'C06': DIMACS + AIGER + ['dimacs:satlog'], 'C07': DIMACS + ['dimacs:satlog'], 'C08': FMT_SUITES + DIMACS + AIGER + ['ctor'], 'C09': STREAMING + ['reader', 'ctor'], 'C10': ['reader', 'mem'], 'C11': ['writer'],
     'C12': ['renumber'], 'C13': ['scan'], 'C14': ['reader', 'raw', 'fmt:btor2', 'fmt:cnf', 'fmt:gcnf', 'fmt:aag', 'fmt:aig'], 'C16': ['scan'],
 }
 SUITE_FN = {
@@ -39,6 +39,7 @@ SUITE_FN = {
     'dimacs:satlog': ('flussab_cnf::sat_solver_log::parse_log on structured logs', 'flussab-cnf/src/sat_solver_log.rs'),
     'dimacs:cnf': ('flussab_cnf::cnf::Parser<i32> on structured documents', 'flussab-cnf/src/cnf.rs'),
     'dimacs:wcnf': ('flussab_cnf::wcnf::Parser<isize> on structured documents', 'flussab-cnf/src/wcnf.rs'),
+    'dimacs:wcnf16': ('flussab_cnf::wcnf::Parser<i16> on structured documents', 'flussab-cnf/src/wcnf.rs'),
     'dimacs:gcnf': ('flussab_cnf::gcnf::Parser<i16> on structured documents', 'flussab-cnf/src/gcnf.rs'),
     'aiger:aag': ('flussab_aiger::ascii Parser/Writer on structured values', 'flussab-aiger/src/ascii.rs'),
     'aiger:aig': ('flussab_aiger::binary Parser/Writer on structured values', 'flussab-aiger/src/binary.rs'),
@@ -216,7 +217,7 @@ def run_engines(prop, tier, seed):
     out = []
     if prop in STANDIN_FOR and not os.environ.get('VP_NO_STANDIN'):      # VP_NO_STANDIN=1: proofs only (used to audit the contracts against the seeded changes)
         out.extend(run_standin(prop, tier, seed))
-    for g in KANI_FOR.get(prop, []):
+    for g in ([] if os.environ.get('VP_NO_PROOFS') else KANI_FOR.get(prop, [])):
         r = K.run_harness_group(g)
         er = {'name': 'kani:' + g, 'kind': 'kani', 'status': r['status'], 'reason': r.get('reason', ''), 'wall_s': r.get('wall_s', 0.0),
               'harnesses': r['harnesses'], 'complete': r.get('complete'), 'cmd': r.get('cmd'), 'cache': r.get('cache'),
